@@ -541,6 +541,22 @@ func mathIsInf(fr *frame, a []value) value {
 
 func placeholder(v value) string { return "⟦" + termOf(v) + "⟧" }
 
+// intPlaceholder: base and signedness are part of the placeholder (the same
+// 64 bits render differently as int64 and uint64, and in another base).
+func intPlaceholder(v value, base int, signed bool) string {
+	if base == 10 && signed {
+		return placeholder(v)
+	}
+	t := "⟦" + termOf(v)
+	if !signed {
+		t += ":u"
+	}
+	if base != 10 {
+		t += ":base" + strconv.Itoa(base)
+	}
+	return t + "⟧"
+}
+
 // intRendering: a symbolic integer rendered by FormatInt/FormatUint/Itoa.
 type intRendering struct {
 	v      value
@@ -555,6 +571,7 @@ func strconvFormat(fr *frame, a []value) value {
 		if fr.fn.Name() != "Itoa" {
 			base = int(asInt64(a[1]))
 		}
+		ph = intPlaceholder(a[0], base, fr.fn.Name() != "FormatUint")
 		if fr.i.intRenderings == nil {
 			fr.i.intRenderings = map[string]intRendering{}
 		}
@@ -580,7 +597,9 @@ type floatRendering struct {
 }
 
 func (i *interpreter) renderFloat(v value, fmtc byte, prec, bs int) string {
-	ph := placeholder(v)
+	// the format is part of the placeholder: renderings of one value with
+	// different verbs, precisions or bit sizes are different strings
+	ph := "⟦" + termOf(v) + ":" + string(rune(fmtc)) + strconv.Itoa(prec) + "/" + strconv.Itoa(bs) + "⟧"
 	if s, ok := v.(sym); ok {
 		if i.floatRenderings == nil {
 			i.floatRenderings = map[string]floatRendering{}
@@ -607,7 +626,12 @@ func appendStr(dst []value, s string) []value {
 func strconvAppend(fr *frame, a []value) value {
 	dst := a[0].([]value)
 	if isSym(a[1]) {
-		return appendStr(dst, placeholder(a[1]))
+		ph := intPlaceholder(a[1], int(asInt64(a[2])), fr.fn.Name() != "AppendUint")
+		if fr.i.intRenderings == nil {
+			fr.i.intRenderings = map[string]intRendering{}
+		}
+		fr.i.intRenderings[ph] = intRendering{a[1], int(asInt64(a[2])), fr.fn.Name() != "AppendUint"}
+		return appendStr(dst, ph)
 	}
 	if fr.fn.Name() == "AppendUint" {
 		return appendStr(dst, strconv.FormatUint(uint64(asInt64(a[1])), int(asInt64(a[2]))))
